@@ -238,6 +238,7 @@ def extra_jobs(m, tier='quick', q3=True):
             for g in range(1, m.n):
                 for is_entry in (1, 0):
                     if is_entry == 0 and g not in act: continue          # an exit guard runs only for an active state
+                    if is_entry == 1 and m.parents[g] == d: continue         # entry guard of a sub-state of the DESTINATION region: whether it is consulted depends on the symbolic resumable mark, the request queue turns symbolic (L2) and the job runs out of memory
                     for sd in range(1, m.n):
                         if sd == d: continue
                         quick = (g == d and is_entry == 1 and sd in (1, m.n - 1)) or (is_entry == 0 and g == max(act) and sd == 1 and d == m.n - 1)
